@@ -585,6 +585,79 @@ func runC20(r *Run, verifDir string) {
 			}
 		}
 		sort.Strings(missing)
+		// an object Clear re-creates is configured exactly as the constructor configures it
+		confDiff := ""
+		config := func(fn *ssa.Function) map[string][]string {
+			out := map[string][]string{}
+			allInstrs(fn, func(in ssa.Instruction) {
+				mk, ok := in.(*ssa.Call)
+				if !ok || mk.Call.StaticCallee() == nil || mk.Call.IsInvoke() {
+					return
+				}
+				mid := callID(&mk.Call)
+				if strings.HasPrefix(mid.pkg, modPath) || mid.recv != "" || !strings.HasPrefix(mid.name, "New") {
+					return
+				}
+				k := mid.pkg + "." + mid.name
+				if _, seen := out[k]; !seen {
+					out[k] = []string{}
+				}
+				// method calls on the new object: directly on the result, or on loads of the field it was stored into
+				isObj := map[ssa.Value]bool{mk: true}
+				for _, ref := range *mk.Referrers() {
+					if st, ok := ref.(*ssa.Store); ok && st.Val == ssa.Value(mk) {
+						if fa, ok := st.Addr.(*ssa.FieldAddr); ok {
+							allInstrs(fn, func(in2 ssa.Instruction) {
+								if ld, ok := in2.(*ssa.UnOp); ok && ld.Op == token.MUL {
+									if fa2, ok := ld.X.(*ssa.FieldAddr); ok && fa2.Field == fa.Field && fa2.X == fa.X && dominatesInstr(st, ld) {
+										isObj[ld] = true
+									}
+								}
+							})
+						}
+					}
+				}
+				allInstrs(fn, func(in2 ssa.Instruction) {
+					c2, ok := in2.(*ssa.Call)
+					if !ok || len(c2.Call.Args) == 0 || !isObj[c2.Call.Args[0]] || c2 == mk {
+						return
+					}
+					desc := callID(&c2.Call).name + "("
+					for _, a := range c2.Call.Args[1:] {
+						if k, ok := a.(*ssa.Const); ok && k.Value != nil {
+							desc += k.Value.ExactString() + ","
+						} else {
+							desc += "?,"
+						}
+					}
+					out[k] = append(out[k], desc+")")
+				})
+				sort.Strings(out[k])
+			})
+			return out
+		}
+		var ctor *ssa.Function
+		for _, fn := range p.OwnFuncs() {
+			if idOf(fn).pkg != ttlvPath || fn.Parent() != nil || fn.Signature.Recv() != nil || fn.Signature.Results().Len() != 1 {
+				continue
+			}
+			if typeName(fn.Signature.Results().At(0).Type()) == wt {
+				ctor = fn
+			}
+		}
+		if ctor != nil {
+			cNew, cClr := config(ctor), config(clr)
+			for k, want := range cNew {
+				if got, ok := cClr[k]; ok && strings.Join(got, ";") != strings.Join(want, ";") {
+					confDiff = fmt.Sprintf("%s is configured with [%s] by %s but with [%s] by Clear", k, strings.Join(want, "; "), fnKey(ctor), strings.Join(got, "; "))
+				}
+			}
+		}
+		if confDiff != "" {
+			r.Bad("C20.E5", key+"/same-configuration", clr.Pos(), "%s.Clear re-creates an object with another configuration than the constructor (%s): the output of a cleared, reused encoder differs from the output of a fresh one for the same value", wt, confDiff)
+		} else if ctor != nil {
+			r.OK("C20.E5", key+"/same-configuration", clr.Pos(), "objects re-created by Clear are configured as in %s", fnKey(ctor))
+		}
 		if len(missing) > 0 {
 			r.Bad("C20.E5", key, clr.Pos(), "%s.Clear does not reset %v, which encoding modifies: the next message on the cleared encoder starts from the previous message's state", wt, missing)
 		} else {
